@@ -114,6 +114,54 @@ impl BufX for Lying {
     }
 }
 
+/// A lying `Buf` that additionally overrides the safe, overridable bulk methods: `copy_to_slice` /
+/// `try_copy_to_slice` return normally without filling `dst` (a "short read"). The crate may not rely
+/// on them to initialise memory.
+pub struct LyingCts {
+    inner: Lying,
+    mode: u8,
+}
+impl Buf for LyingCts {
+    fn remaining(&self) -> usize {
+        self.inner.remaining()
+    }
+    fn chunk(&self) -> &[u8] {
+        self.inner.chunk()
+    }
+    fn advance(&mut self, cnt: usize) {
+        self.inner.advance(cnt)
+    }
+    fn copy_to_slice(&mut self, dst: &mut [u8]) {
+        let have = self.inner.left();
+        let n = match self.mode % 4 {
+            0 => dst.len() / 2,
+            1 => 0,
+            2 => dst.len(),
+            _ => panic!("lying buf: copy_to_slice panics"),
+        }
+        .min(have);
+        let p = self.inner.pos;
+        dst[..n].copy_from_slice(&self.inner.data[p..p + n]);
+        // consumes what it claims to have produced, not what it produced
+        self.inner.pos = (p + dst.len().min(have)).min(self.inner.data.len());
+    }
+    fn try_copy_to_slice(&mut self, dst: &mut [u8]) -> Result<(), bytes::TryGetError> {
+        if self.mode % 2 == 0 {
+            return Ok(()); // claims success, wrote nothing
+        }
+        self.copy_to_slice(dst);
+        Ok(())
+    }
+}
+impl BufX for LyingCts {
+    fn dismantle(self: Box<Self>) -> Vec<BX> {
+        Vec::new()
+    }
+    fn tname(&self) -> &'static str {
+        "LyingCts"
+    }
+}
+
 /// iterator with a lying size_hint
 struct LyingIter {
     n: usize,
@@ -180,11 +228,12 @@ fn touch(b: &[u8]) {
     std::hint::black_box(s);
 }
 
-pub const N_ENTRY: usize = 30;
+pub const N_ENTRY: usize = 36;
 
 /// Drive one consumer with a lying implementation. Returns a name for coverage.
 pub fn consumer(entry: usize, plan: &Plan, aux: usize) -> &'static str {
     let lying = || Lying::new(plan.clone());
+    let lying_cts = || LyingCts { inner: Lying::new(plan.clone()), mode: (aux / 3) as u8 };
     let rows = getters::rows();
     match entry {
         0 => {
@@ -379,6 +428,89 @@ pub fn consumer(entry: usize, plan: &Plan, aux: usize) -> &'static str {
             let _ = std::io::copy(&mut lying().reader(), &mut w);
             "io-copy"
         }
+        30 => {
+            let mut l = lying_cts();
+            let r = l.copy_to_bytes(aux % 40);
+            touch(&r);
+            let r = l.copy_to_bytes(aux % 7);
+            touch(&r);
+            "cts-copy_to_bytes-default"
+        }
+        31 => {
+            let mut t = lying_cts().take(aux % 50);
+            let r = t.copy_to_bytes(aux % 40);
+            touch(&r);
+            let mut dst = vec![0u8; aux % 9];
+            t.copy_to_slice(&mut dst);
+            touch(&dst);
+            "cts-copy_to_bytes-take"
+        }
+        32 => {
+            if aux % 2 == 0 {
+                let mut c = Buf::chain(lying_cts(), &b"tail-bytes"[..]);
+                let r = c.copy_to_bytes(aux % 45);
+                touch(&r);
+            } else {
+                let mut c = Buf::chain(&b"head"[..], lying_cts());
+                let r = c.copy_to_bytes(aux % 45);
+                touch(&r);
+                let r = c.copy_to_bytes(aux % 11);
+                touch(&r);
+            }
+            "cts-copy_to_bytes-chain"
+        }
+        33 => {
+            let mut b: BX = Box::new(lying_cts());
+            if aux % 2 == 0 {
+                let mut r: &mut dyn BufX = &mut *b;
+                let x = Buf::copy_to_bytes(&mut r, aux % 30);
+                touch(&x);
+            } else {
+                let x = Buf::copy_to_bytes(&mut b, aux % 30);
+                touch(&x);
+            }
+            let mut dst = [0u8; 12];
+            let _ = Buf::try_copy_to_slice(&mut b, &mut dst[..aux % 13]);
+            touch(&dst);
+            "cts-forwarding"
+        }
+        34 => {
+            let row = &rows[aux % rows.len()];
+            let mut b: BX = Box::new(lying_cts());
+            if aux % 2 == 0 {
+                let _ = std::hint::black_box((row.get[aux % 3])(&mut b, aux % 9));
+            } else {
+                let _ = std::hint::black_box((row.try_get[aux % 3])(&mut b, aux % 9));
+            }
+            "cts-getter"
+        }
+        35 => {
+            match aux % 4 {
+                0 => {
+                    let mut r = lying_cts().reader();
+                    let mut dst = vec![0u8; aux % 40];
+                    let _ = r.read(&mut dst);
+                    let _ = r.read_exact(&mut dst);
+                    touch(&dst);
+                }
+                1 => {
+                    let mut r = lying_cts().reader();
+                    let mut v = Vec::new();
+                    let _ = r.read_to_end(&mut v);
+                    touch(&v);
+                }
+                2 => {
+                    let mut m = BytesMut::with_capacity(aux % 8);
+                    m.put(lying_cts());
+                    touch(&m);
+                }
+                _ => {
+                    let v: Vec<u8> = bytes::buf::IntoIter::new(lying_cts()).take(100).collect();
+                    touch(&v);
+                }
+            }
+            "cts-reader-put-iter"
+        }
         _ => {
             if aux % 2 == 0 {
                 // IntoIterator for Chain
@@ -473,6 +605,53 @@ pub fn faults(a: &Args, o: &mut Obs) {
         }
     }
     o.add("exhaustive_single_lie_cases", k as u64);
+    // getters on a buffer holding fewer bytes than the value needs, whose first remaining() claims more:
+    // every row x get/try_get x data length {0, 1, w/2, w-1} x first-call lie {+1, +9, usize::MAX} x chunk()
+    // {honest, half, empty, 3 bytes of another slice} x second remaining() {honest, 0, -1}
+    let rows = getters::rows();
+    let mut g = 0usize;
+    let no_short = a.flag("no-short");
+    for (ri, row) in rows.iter().enumerate() {
+        if no_short {
+            break;
+        }
+        let js = if row.width == 0 { 9 } else { 3 };
+        for j in 0..js {
+            let aux = ri + rows.len() * j;
+            let w = if row.width == 0 { aux % 9 } else { row.width };
+            let mut lens = vec![0usize, 1, w / 2, w.saturating_sub(1)];
+            lens.sort_unstable();
+            lens.dedup();
+            for &len in &lens {
+                for which in 0..2usize {
+                    for rem0 in [0u8, 1, 3] {
+                        for l1 in [None, Some(0u8), Some(1), Some(3)] {
+                            for l2 in [None, Some(4u8), Some(2)] {
+                                g += 1;
+                                if g % nshards != shard {
+                                    continue;
+                                }
+                                let id = 500_000_000 + g;
+                                if only.map(|x| x != id).unwrap_or(false) {
+                                    continue;
+                                }
+                                let mut lies = vec![(0u32, rem0)];
+                                if let Some(c) = l1 {
+                                    lies.push((1, c));
+                                }
+                                if let Some(c) = l2 {
+                                    lies.push((2, c));
+                                }
+                                let plan = Plan { lies, budget: 200, len, vect_lie: 0 };
+                                run_one(o, which, plan, aux, format!("flt:g:{id}"));
+                            }
+                        }
+                    }
+                }
+            }
+        }
+    }
+    o.add("short_getter_cases", g as u64);
     // random multi-lie schedules
     for c in 0..count {
         let g = shard + c * nshards;
